@@ -560,85 +560,89 @@ structure TopSt where
   readOnly : Bool := false
   bitFlags : Bool := false
 
-/-- ReadFile's top-level loop; returns the File and whether it ended with an error. Go returns the
-    partial File together with the error; only the error is compared then. -/
+/-- One iteration of ReadFile's top-level loop, for the token `tk` that was just read: the new loop state. -/
+def stepTop (fuel : Nat) (st : TopSt) (tk : Token) : P TopSt :=
+  let reset := fun (st : TopSt) => { st with comments := [], opCode := 0, bitFlags := false }
+  match tk.kind with
+  | .kImport => do
+    let ts ← expectSeq [.strLit]
+    let imp ← unquote (ts.headD {})
+    pure { st with file := { st.file with imports := st.file.imports ++ [imp] } }
+  | .newline => pure { st with comments := [] }
+  | .blockComment => pure { st with comments := st.comments ++ [blockCommentText tk] }
+  | .lineComment => pure { st with comments := st.comments ++ [lineCommentText tk] }
+  | .openSquare => do
+    expectAnyOf [.kOpCode, .kFlags]
+    let k ← pTok
+    if k.kind == .kOpCode then do
+      pUnNext
+      let code ← readOpCode
+      pure { st with opCode := code }
+    else do
+      expectAnyOf [.closeSquare]
+      optNewline
+      pure { st with bitFlags := true }
+  | .kEnum =>
+    if st.opCode != 0 then fail
+    else do
+      let en ← readEnum fuel st.bitFlags
+      let en := { en with comment := joinLines st.comments }
+      pure (reset { st with file := { st.file with enums := st.file.enums ++ [en] } })
+  | .kReadOnly => do
+    let nx ← pNext
+    if !nx then fail
+    else
+      let k ← pTok
+      if k.kind != .kStruct then fail
+      else if st.bitFlags then fail
+      else do
+        let s ← readStruct fuel
+        let s := { s with comment := joinLines st.comments, opCode := st.opCode, readOnly := true }
+        pure (reset { st with file := { st.file with structs := st.file.structs ++ [s] }, readOnly := false })
+  | .kStruct =>
+    if st.bitFlags then fail
+    else do
+      let s ← readStruct fuel
+      let s := { s with comment := joinLines st.comments, opCode := st.opCode, readOnly := st.readOnly }
+      pure (reset { st with file := { st.file with structs := st.file.structs ++ [s] }, readOnly := false })
+  | .kMessage =>
+    if st.bitFlags then fail
+    else do
+      let m ← readMessage fuel
+      let m := { m with comment := joinLines st.comments, opCode := st.opCode }
+      pure (reset { st with file := { st.file with messages := st.file.messages ++ [m] } })
+  | .kUnion =>
+    if st.bitFlags then fail
+    else do
+      let u ← readUnion fuel
+      let u := { u with comment := joinLines st.comments, opCode := st.opCode }
+      pure (reset { st with file := { st.file with unions := st.file.unions ++ [u] } })
+  | .kConst =>
+    if st.bitFlags then fail
+    else if st.opCode != 0 then fail
+    else do
+      let c ← readConst fuel
+      let c := { c with comment := joinLines st.comments }
+      let gp ← (if strEq c.name "go_package" && strEq c.simpleType "string" then
+          (match plainQuoted c.value with
+           | some s => pure s
+           | none => declined)
+        else pure st.file.goPackage : P Str)
+      pure (reset { st with file := { st.file with consts := st.file.consts ++ [c], goPackage := gp } })
+  | _ => pure (reset st)
+
+/-- ReadFile's top-level loop: `for tr.Next() { … }`, then the tokenizer's error if any (the fix). Go
+    returns the partial File together with an error; only the presence of the error is compared then. -/
 def readFileLoop (fuel : Nat) : Nat → TopSt → P File
   | 0, _ => outOfFuel
   | f+1, st => do
     let nx ← pNext
     if !nx then
-      -- the loop is over: return the tokenizer's error, if any (the fix)
       if (← pHasErr) then fail else pure st.file
-    else
+    else do
       let tk ← pTok
-      let reset := fun (st : TopSt) => { st with comments := [], opCode := 0, bitFlags := false }
-      match tk.kind with
-      | .kImport => do
-        let ts ← expectSeq [.strLit]
-        let imp ← unquote (ts.headD {})
-        readFileLoop fuel f { st with file := { st.file with imports := st.file.imports ++ [imp] } }
-      | .newline => readFileLoop fuel f { st with comments := [] }
-      | .blockComment => readFileLoop fuel f { st with comments := st.comments ++ [blockCommentText tk] }
-      | .lineComment => readFileLoop fuel f { st with comments := st.comments ++ [lineCommentText tk] }
-      | .openSquare => do
-        expectAnyOf [.kOpCode, .kFlags]
-        let k ← pTok
-        if k.kind == .kOpCode then do
-          pUnNext
-          let code ← readOpCode
-          readFileLoop fuel f { st with opCode := code }
-        else do
-          expectAnyOf [.closeSquare]
-          optNewline
-          readFileLoop fuel f { st with bitFlags := true }
-      | .kEnum =>
-        if st.opCode != 0 then fail
-        else do
-          let en ← readEnum fuel st.bitFlags
-          let en := { en with comment := joinLines st.comments }
-          readFileLoop fuel f (reset { st with file := { st.file with enums := st.file.enums ++ [en] } })
-      | .kReadOnly => do
-        let nx ← pNext
-        if !nx then fail
-        else
-          let k ← pTok
-          if k.kind != .kStruct then fail
-          else if st.bitFlags then fail
-          else do
-            let s ← readStruct fuel
-            let s := { s with comment := joinLines st.comments, opCode := st.opCode, readOnly := true }
-            readFileLoop fuel f (reset { st with file := { st.file with structs := st.file.structs ++ [s] }, readOnly := false })
-      | .kStruct =>
-        if st.bitFlags then fail
-        else do
-          let s ← readStruct fuel
-          let s := { s with comment := joinLines st.comments, opCode := st.opCode, readOnly := st.readOnly }
-          readFileLoop fuel f (reset { st with file := { st.file with structs := st.file.structs ++ [s] }, readOnly := false })
-      | .kMessage =>
-        if st.bitFlags then fail
-        else do
-          let m ← readMessage fuel
-          let m := { m with comment := joinLines st.comments, opCode := st.opCode }
-          readFileLoop fuel f (reset { st with file := { st.file with messages := st.file.messages ++ [m] } })
-      | .kUnion =>
-        if st.bitFlags then fail
-        else do
-          let u ← readUnion fuel
-          let u := { u with comment := joinLines st.comments, opCode := st.opCode }
-          readFileLoop fuel f (reset { st with file := { st.file with unions := st.file.unions ++ [u] } })
-      | .kConst =>
-        if st.bitFlags then fail
-        else if st.opCode != 0 then fail
-        else do
-          let c ← readConst fuel
-          let c := { c with comment := joinLines st.comments }
-          let gp ← (if strEq c.name "go_package" && strEq c.simpleType "string" then
-              (match plainQuoted c.value with
-               | some s => pure s
-               | none => declined)
-            else pure st.file.goPackage : P Str)
-          readFileLoop fuel f (reset { st with file := { st.file with consts := st.file.consts ++ [c], goPackage := gp } })
-      | _ => readFileLoop fuel f (reset st)
+      let st' ← stepTop fuel st tk
+      readFileLoop fuel f st'
 
 inductive ReadResult where
   | ok (f : File)
